@@ -149,6 +149,41 @@ func init() {
 						judge(c, "splice-"+sp.name, src, o1+sp.out+o2)
 					}
 				}})
+			// text inside blocks: right after ")" of a directive, right after a paren-less
+			// keyword (@else), right before @end - also text that starts with letters
+			holes := []struct{ name, pre, post, outPre string }{
+				{"after-if-paren", "<@if(true)", "@end>", ""},
+				{"after-else", "<@if(false)X@else", "@end>", ""},
+				{"after-each-paren", "<@each(v in [1])", "@end>", ""},
+				{"after-end", "<@if(true)X@end", ">", "X"},
+				{"after-elseif-paren", "<@if(0)X@elseif(1)", "@else Z@end>", ""},
+				{"before-else", "<@if(1)", "@else Z@end>", ""},
+				{"after-comment", "<{{-- c --}}", "{{-- d --}}>", ""},
+			}
+			holeTexts := append(append([]string{}, texts...), "i", "f", "of", "off", "it works", "If", "Ifx", "if", "iffy", "(see note)", "( x )", "e", "end", "else", "each x", "for", "x@", "a@b.c")
+			secs = append(secs, core.Section{Name: "text-in-blocks", Exhaustive: true, N: len(holeTexts),
+				Run: func(c *core.Ctx, i int) {
+					t := holeTexts[i]
+					out, at := scanText(t)
+					if at >= 0 {
+						return
+					}
+					for _, h := range holes {
+						// "@else" + "if…" spells @elseif; "@break"/"@continue" + "If…" their conditional forms
+						if h.name == "after-else" && strings.HasPrefix(t, "if") {
+							continue
+						}
+						src := h.pre + t + h.post
+						// the text must not fuse with what follows it into syntax (trailing backslash, brace)
+						if _, at := scanText(t + h.post); at != len(t) && h.post != ">" {
+							continue
+						}
+						if strings.HasSuffix(t, "\\") {
+							continue
+						}
+						judge(c, "text-in-block-"+h.name, src, "<"+h.outPre+out+">")
+					}
+				}})
 			all := allAtoms()
 			textish := append(append([]string{}, TextAtoms...), MoreDirectiveAtoms...)
 			secs = append(secs, core.Section{Name: "random", N: nrand, Run: func(c *core.Ctx, i int) {
